@@ -443,72 +443,98 @@ def _split_ifexp_loops(block):
     return changed
 
 
+def _lazy_ids(expr):
+    """ids of sub-expressions evaluated conditionally, lazily or repeatedly"""
+    lazy = set()
+
+    def mark(e):
+        for y in ast.walk(e):
+            lazy.add(id(y))
+    for x in ast.walk(expr):
+        if isinstance(x, ast.Lambda):
+            mark(x.body)
+        elif isinstance(x, COMPS):
+            for k, g in enumerate(x.generators):
+                mark(g.target)
+                if k:
+                    mark(g.iter)
+                for c in g.ifs:
+                    mark(c)
+            if isinstance(x, ast.DictComp):
+                mark(x.key)
+                mark(x.value)
+            else:
+                mark(x.elt)
+        elif isinstance(x, ast.IfExp):
+            mark(x.body)
+            mark(x.orelse)
+        elif isinstance(x, ast.BoolOp):
+            for v in x.values[1:]:
+                mark(v)
+    return lazy
+
+
 def _split_ifexp_stmts(block):
-    """`x = A if c else B` / `return A if c else B` with a call-free test is
-    the if/else statement (one evaluation of c, then one arm, either way)"""
+    """`x = A if c else B` / `return A if c else B` / `raise ...` with a
+    call-free test is the if/else statement; so is a conditional expression
+    nested in the value when nothing that could run code is evaluated before
+    its test (f(g(A if c else B)): names are looked up, then c is tested)"""
+    from .pyfront import eval_order
     changed = False
     for j, st in enumerate(block):
-        v = None
+        field = None
         if isinstance(st, ast.Assign) and len(st.targets) == 1 and \
-                isinstance(st.targets[0], ast.Name):
-            v = st.value
-        elif isinstance(st, ast.Return):
-            v = st.value
+                (isinstance(st.targets[0], ast.Name) or _call_free(st.targets[0])):
+            field = 'value'
+        elif isinstance(st, ast.Return) or (isinstance(st, ast.Expr)):
+            field = 'value'
+        elif isinstance(st, ast.Raise) and st.cause is None:
+            field = 'exc'
+        if field is None:
+            continue
+        v = getattr(st, field)
         if v is None:
             continue
-        if not isinstance(v, ast.IfExp):
-            # a conditional expression nested in displays / operators of an
-            # otherwise call-free value: nothing observable runs before its test
-            cand = None
-            stack = [v]
-            while stack and cand is None:
-                n = stack.pop(0)
-                for ch in ast.iter_child_nodes(n):
-                    if isinstance(ch, ast.IfExp):
-                        cand = ch
-                        break
-                    if isinstance(ch, (ast.Tuple, ast.List, ast.BinOp, ast.Subscript,
-                                       ast.Attribute, ast.Starred, ast.Compare)):
-                        stack.append(ch)
-            if cand is None or not _call_free(cand.test):
-                continue
-            marker = ast.Name(id='__ifexp__', ctx=ast.Load())
-
-            class Sw(ast.NodeTransformer):
-                def __init__(self, new):
-                    self.new = new
-
-                def visit_IfExp(self, node):
-                    return self.new if node is cand else self.generic_visit(node)
-            probe = Sw(marker).visit(clone_keep(v, cand))
-            if not _call_free(probe):
-                continue
-            arms = []
-            for br in (cand.body, cand.orelse):
-                new = clone(st)
-                # locate the clone of cand by position in a fresh walk
-                k = [i for i, n in enumerate(ast.walk(st.value)) if n is cand][0]
-                tgt = list(ast.walk(new.value))[k]
-
+        lazy = _lazy_ids(v)
+        cand = None
+        before_ok = True
+        for x in eval_order(v):
+            if isinstance(x, ast.IfExp) and id(x) not in lazy:
+                cand = x
+                break
+        if cand is None or not _call_free(cand.test):
+            continue
+        inside = {id(n) for n in ast.walk(cand)}
+        for x in eval_order(v):
+            if id(x) in inside:
+                break
+            if isinstance(x, ast.Call) and not (isinstance(x.func, ast.Name) and
+                                                x.func.id in _PURE_FUNCS):
+                before_ok = False
+                break
+            if isinstance(x, (ast.Yield, ast.YieldFrom, ast.Await, ast.NamedExpr)):
+                before_ok = False
+                break
+        if not before_ok:
+            continue
+        k = [i for i, n in enumerate(ast.walk(v)) if n is cand][0]
+        arms = []
+        for which in ('body', 'orelse'):
+            new = clone(st)
+            nv = getattr(new, field)
+            tgt = list(ast.walk(nv))[k]
+            br = getattr(tgt, which)
+            if tgt is nv:
+                setattr(new, field, br)
+            else:
                 class Sw2(ast.NodeTransformer):
                     def visit_IfExp(self, node):
-                        return clone(br) if node is tgt else self.generic_visit(node)
-                new.value = Sw2().visit(new.value)
-                arms.append(new)
-            block[j] = ast.copy_location(ast.If(test=clone(cand.test), body=[arms[0]],
-                                                orelse=[arms[1]]), st)
-            ast.fix_missing_locations(block[j])
-            changed = True
-            continue
-        if not _call_free(v.test):
-            continue
-        arms = []
-        for br in (v.body, v.orelse):
-            new = clone(st)
-            new.value = br
+                        return br if node is tgt else self.generic_visit(node)
+                setattr(new, field, Sw2().visit(nv))
             arms.append(new)
-        block[j] = ast.copy_location(ast.If(test=v.test, body=[arms[0]],
+        block[j] = ast.copy_location(ast.If(test=clone(cand.test), body=[arms[0]],
                                             orelse=[arms[1]]), st)
+        ast.fix_missing_locations(block[j])
         changed = True
     return changed
 
